@@ -1,4 +1,5 @@
 """C06 - tap: printed address and witnesses verify: writer<->verifier agreement clauses (DESIGN.md section 4, C06)."""
+import os
 from .. import astq, structure as S, streams
 from ..facts import AnalysisBroken, walk
 
@@ -317,32 +318,66 @@ def run(ctx, anchors=None):
              "Prove does not (append at the end, then recurse to the parent with this): the verifier folds bottom-up")
     # ---- R06.4 data-dependence closure of the address
     dep = {}
+    _ctl_cache = {}
 
-    def add(t, srcs):
+    def control_names(n):
+        """locals read by the conditions a write is nested in: the value written there depends on them as well (seed C06-L: the
+        leftover leaf is hung under the root only `if (pending == spending_leaf)` - the tree, and with it the address, then
+        depends on the selection although no selected value flows into it)"""
+        out = set()
+        if n.get("k") == "mcall" and astq.is_pure_accessor(n):
+            return out          # begin() / data() / operator[] of a non-const container: no write
+        if any(astq.is_call(a) and (a.get("n") or "") == "abort" for a in tapmain.ancestors(n)):
+            return out          # evaluated as an argument of the terminating diagnostic
+        for a in tapmain.ancestors(n):
+            if a.get("k") in ("if", "while", "for", "do", "cond") and a.get("cond") is not None and not any(x is n for x in walk(a["cond"])):
+                if a["id"] not in _ctl_cache:
+                    _ctl_cache[a["id"]] = {y["n"] for y in walk(a["cond"]) if y["k"] == "ref" and y.get("dk") in ("local", "parm")}
+                out |= _ctl_cache[a["id"]]
+        return out
+
+    _cfg6 = tapmain.cfg()
+    _sink_blocks = {p_[0] for p_ in (_cfg6.position(y) for y in tapmain.nodes() if y.get("k") == "ref" and y.get("n") == "serialized_pk") if p_ is not None}
+    if not _sink_blocks:
+        raise AnalysisBroken("R06.4: `serialized_pk` (the output key the address is encoded from) not found in tap's main")
+
+    def reaches_address(at):
+        """a write matters only if the address computation can still be reached from it (not a write in front of the terminating
+        diagnostic, not one made by the signing code after the address was printed)"""
+        p_ = _cfg6.position(at)
+        if p_ is None:
+            return True
+        return any(p_[0] == b or _cfg6.exists_path(p_[0], b) for b in _sink_blocks)
+
+    def add(t, srcs, at=None):
+        if at is not None and not reaches_address(at):
+            return
         dep.setdefault(t, set()).update(srcs)
+        if at is not None:
+            dep[t].update(control_names(at) - {t})
     for n in tapmain.nodes():
         if n["k"] == "decl":
             for d in n["decls"]:
                 if d.get("init") is not None:
-                    add(d["n"], {y["n"] for y in walk(d["init"]) if y["k"] == "ref" and y.get("dk") in ("local", "parm")})
+                    add(d["n"], {y["n"] for y in walk(d["init"]) if y["k"] == "ref" and y.get("dk") in ("local", "parm")}, at=n)
         elif n["k"] in ("assign", "cassign"):
             t = [y["n"] for y in walk(n["lhs"]) if y["k"] == "ref" and y.get("dk") == "local"]
             if t:
-                add(t[0], {y["n"] for y in walk(n["rhs"]) if y["k"] == "ref" and y.get("dk") in ("local", "parm")})
+                add(t[0], {y["n"] for y in walk(n["rhs"]) if y["k"] == "ref" and y.get("dk") in ("local", "parm")}, at=n)
         elif n["k"] == "opcall" and n.get("op") in ("=", "<<", "+="):
             t = [y["n"] for y in walk(n["args"][0]) if y["k"] == "ref" and y.get("dk") == "local"]
             if t:
-                add(t[0], {y["n"] for a in n["args"][1:] for y in walk(a) if y["k"] == "ref" and y.get("dk") in ("local", "parm")})
+                add(t[0], {y["n"] for a in n["args"][1:] for y in walk(a) if y["k"] == "ref" and y.get("dk") in ("local", "parm")}, at=n)
         elif n["k"] == "mcall" and n.get("obj") is not None and n.get("mconst") is False:
             t = [y["n"] for y in walk(n["obj"]) if y["k"] == "ref" and y.get("dk") == "local"]
             if t:
-                add(t[0], {y["n"] for a in n["args"] if a for y in walk(a) if y["k"] == "ref" and y.get("dk") in ("local", "parm")})
+                add(t[0], {y["n"] for a in n["args"] if a for y in walk(a) if y["k"] == "ref" and y.get("dk") in ("local", "parm")}, at=n)
         elif n["k"] == "call" and not (n.get("cid") and prog.resolve(n["cid"])):
             names = {y["n"] for a in n["args"] if a for y in walk(a) if y["k"] == "ref" and y.get("dk") in ("local", "parm")}
             outs = {y["n"] for a in n["args"] if a is not None and a.get("k") == "un" and a["op"] == "&" for y in walk(a) if y["k"] == "ref" and y.get("dk") == "local"}
             outs |= {y["n"] for a in n["args"] if a is not None and a.get("k") == "mcall" and a.get("n") in ("data", "begin") for y in walk(a) if y["k"] == "ref"}
             for o in outs:
-                add(o, names - {o})
+                add(o, names - {o}, at=n)
     seen = set()
     st = ["serialized_pk"]
     while st:
@@ -351,6 +386,9 @@ def run(ctx, anchors=None):
             continue
         seen.add(x)
         st.extend(dep.get(x, ()))
+    if os.environ.get("VERIF_DEBUG_R064"):
+        for x in sorted(seen):
+            print("R06.4 dep", x, "<-", sorted(dep.get(x, ())))
     forbidden = {"spending_index", "is_tapscript", "spending_leaf", "taproot_input_stack", "taproot_inputs", "ctl", "premade_sig", "privkey", "is_taproot", "spending_script"}
     bad = sorted(seen & forbidden)
     ctx.site(len(seen))
